@@ -37,9 +37,19 @@ Theorem C05_error_mapping : forall pe p, w_ty p = PTResponse ->
                                              | None => WLBErr (w_status p) 500 fallback_msg end).
 Proof. exact error_mapping. Qed.
 
+(* the packet a call returns is a response frame with status success carrying the call's id (every other frame that
+   reaches the matcher - including request or push frames with the AUTH / RECONNECT command - is ignored or surfaced
+   as an error, never returned) *)
+Theorem C05_returned_packet_is_a_response : forall pe acts k id p,
+  N.of_nat (starts acts) + 1 < 4294967296 ->
+  nth_error (ws_calls (run pe acts)) k = Some (mkCall id (CDone (WResp p))) ->
+  w_ty p = PTResponse /\ w_status p = c_StatusSuccess /\ w_rid p = id.
+Proof. exact returned_packet_is_response. Qed.
+
 Print Assumptions C05_returns_own_id.
 Print Assumptions C05_returned_packet_has_own_id.
 Print Assumptions C05_done_is_final.
 Print Assumptions C05_unsolicited_dropped.
 Print Assumptions C05_duplicate_dropped.
 Print Assumptions C05_error_mapping.
+Print Assumptions C05_returned_packet_is_a_response.
